@@ -1,7 +1,11 @@
 //! zv - conformance harness: drives the real zeep code on TLC-generated cases and records traces.
 mod absout;
 mod concretise;
+mod facets;
 mod run;
+#[allow(dead_code, unused_imports, clippy::all)]
+#[path = "/repo/zeep-lib/src/model/helpers_content.rs"]
+pub mod hc;
 
 use std::io::{BufRead, Write};
 
